@@ -110,7 +110,11 @@ def fam_tnest(item):
         yield scn
 
 
-FAMS = {'flat': fam_flat, 'flat4': fam_flat4, 'nest': fam_nest,
+def fam_flat5(item):
+    yield from forced(item['shape'], lambda n: [1, 2, 3])
+
+
+FAMS = {'flat5': fam_flat5, 'flat': fam_flat, 'flat4': fam_flat4, 'nest': fam_nest,
         'deep': fam_deep, 'tflat': fam_tflat, 'tnest': fam_tnest}
 
 
@@ -142,6 +146,9 @@ def items(tier, seed):
                    if tuple(sorted(e)) in reps]
     for shape in shapes4:
         yield dict(fam='flat4', shape=shape, k=0, bound=2 if thorough else 1)
+    # B': five jobs, few edges, every fault subset, windows 1..3
+    for shape in gen.sparse_shapes(5, 3 if thorough else 2):
+        yield dict(fam='flat5', shape=shape, k=0, bound=2)
     # C: nested
     for shape in gen.nest_shapes(3, 2):
         yield dict(fam='nest', shape=shape, k=1 if thorough else 0,
